@@ -43,7 +43,41 @@ def _node_class(cls):
                 """a user subclass of Node"""
             _SUB["SubNode"] = SubNode
         return _SUB["SubNode"]
+    if cls == "PropNode":
+        if "PropNode" not in _SUB:
+            class PropNode(Node):
+                """a user subclass whose attribute y is a read-only property (kept in _y) and whose attribute z
+                has the class-level default PROP_DEFAULT_Z unless the instance overrides it"""
+                z = PROP_DEFAULT_Z
+
+                @property
+                def y(self):
+                    return self.__dict__.get("_y")
+            _SUB["PropNode"] = PropNode
+        return _SUB["PropNode"]
     return Node
+
+
+PROP_DEFAULT_Z = 5
+LIST_TAG = "\x01"          # a list value [1, 2] is modelled as the string "\x01[1, 2]" (equal lists <-> equal strings)
+
+
+def _kwargs(cls, attrs):
+    if cls == "PropNode":
+        return {("_y" if k == "y" else k): v for k, v in attrs.items()}
+    return attrs
+
+
+def _effective(case, t, depth=1):
+    """the tree as node.get_attr sees it: instance attributes plus what the class provides for the listed names"""
+    at = dict(t[1])
+    if case.get("cls") == "PropNode" and "z" not in at:
+        at["z"] = PROP_DEFAULT_Z
+    if "is_leaf" in case["attrs"]:
+        at["is_leaf"] = not t[2]
+    if "depth" in case["attrs"]:
+        at["depth"] = depth
+    return [t[0], at, [_effective(case, k, depth + 1) for k in t[2]]]
 
 
 def _build(t, sep, cls="Node", slots=0):
@@ -58,9 +92,9 @@ def _build(t, sep, cls="Node", slots=0):
                 right = (slots >> (counter[0] % 16)) & 1
                 counter[0] += 1
                 kids = [None, kids[0]] if right else [kids[0], None]
-            n = klass(x[0], children=kids, **x[1]) if kids else klass(x[0], **x[1])
+            n = klass(x[0], children=kids, **_kwargs(cls, x[1])) if kids else klass(x[0], **_kwargs(cls, x[1]))
         else:
-            n = klass(x[0], **x[1])
+            n = klass(x[0], **_kwargs(cls, x[1]))
             n.children = kids
         return n
 
@@ -85,13 +119,15 @@ def _snapshot(root):
 
 
 def _canon(v):
-    """attribute value of the result -> None | int | str (NaN/NA -> None, integral float -> int)"""
+    """attribute value of the result -> None | bool | int | str (NaN/NA -> None, integral float -> int, list -> tagged repr)"""
     if v is None:
         return None
     if hasattr(v, "item") and not isinstance(v, (str, bytes)):
         v = v.item()
     if isinstance(v, bool):
-        raise TypeError("bool value in result")
+        return v
+    if isinstance(v, list):
+        return LIST_TAG + repr(v)
     if isinstance(v, float):
         if v != v:
             return None
@@ -183,7 +219,9 @@ def _cval(v):
     if v is None:
         return "VNone"
     if isinstance(v, bool):
-        raise TypeError("bool")
+        return f"(VBool {cbool(v)})"
+    if isinstance(v, list):
+        return f"(VStr {cstr(LIST_TAG + repr(v))})"
     if isinstance(v, int):
         return f"(VInt ({v})%Z)"
     if isinstance(v, str):
@@ -208,7 +246,7 @@ def _cobs(obs):
 
 def emit(prop, case, obs):
     return (f"DC {cbool(case.get('cls') == 'BinaryNode')} {cbool(obs.get('stable', True))} "
-            f"{cstr(case['sep'])} {cstr(case.get('sep2', case['sep']))} {_ctree(case['t1'])} {_ctree(case['t2'])} {cbool(case['only_diff'])} "
+            f"{cstr(case['sep'])} {cstr(case.get('sep2', case['sep']))} {_ctree(_effective(case, case['t1']))} {_ctree(_effective(case, case['t2']))} {cbool(case['only_diff'])} "
             f"{clist(cstr(a) for a in case['attrs'])} {_cobs(obs)}")
 
 
@@ -223,7 +261,7 @@ NAME_POOLS = {
     "lookalike": ["b", "b (-)", "b (+)", "b (~)", "b (-) (-)", "c", "c (~)", " (-)", "b (-)x", "b(-)", "b (+", "(-)"],
 }
 ATTR_POOL = ["x", "y", "z"]
-VALUES = [0, 1, 2, -1, "s", "t", "1", "", None]
+VALUES = [0, 1, 2, -1, "s", "t", "1", "", None, 0, 1, "s", None, [1, 2], [1], []]
 SHAPES = ["wide", "deep", "mixed", "path", "star"]
 SEPS2 = ["-", ".", "|", "\\"]
 
@@ -359,9 +397,16 @@ def gen_case(rng, pool_name=None, shape=None):
     case = {"sep": "/", "sep2": sep2, "t1": t1, "t2": t2, "only_diff": rng.random() < 0.55, "attrs": al,
             "cls": "Node", "call": rng.choice(["kw", "kw", "pos", "omit"]),
             "stratum": f"{pool_name}/{shape}" + ("" if sep2 == "/" else "/sep2")}
+    if al and rng.random() < 0.2:
+        # built-in derived attributes: resolved through the class, absent from the instance dict
+        al.insert(rng.randint(0, len(al)), rng.choice(["is_leaf", "is_leaf", "depth"]))
+    elif rng.random() < 0.04:
+        al.append("is_leaf")
     r = rng.random()
-    if r < 0.12:
+    if r < 0.06:
         case["cls"] = "SubNode"
+    elif r < 0.24:
+        case["cls"] = "PropNode"        # y is a property, z has a class-level default
     elif r < 0.45 and _binary_ok(t1, t2):
         # BinaryNode trees: at most two children per parent in the union of the two trees
         # (more raise TreeError: reported, Example C15_binary_overflow_refuted)
@@ -475,6 +520,18 @@ def corpus(prop):
         for od in (True, False):
             add("class-" + cls, bt1, bt2, od, ["x"])
             out[-1][1].update(cls=cls, slots1=5, slots2=2)
+    # attributes that node.get_attr resolves through the class: property y, class-level default z, built-in is_leaf / depth
+    pt1 = ["r", {"y": 1}, [_leaf("a", y=1), _leaf("b", z=6), ["c", {}, [_leaf("d")]], _leaf("e", z=None)]]
+    pt2 = ["r", {"y": 2}, [_leaf("a", y=2), _leaf("b"), _leaf("c"), _leaf("e")]]
+    for od in (True, False):
+        for al in (["y"], ["z"], ["is_leaf"], ["z", "is_leaf", "y"], ["depth", "y"]):
+            add("class-attrs", pt1, pt2, od, al)
+            out[-1][1].update(cls="PropNode")
+        add("class-attrs", pt1, copy.deepcopy(pt1), od, ["y", "z", "is_leaf"])
+        out[-1][1].update(cls="PropNode")
+        add("builtin-attrs", ["r", {}, [["c", {}, [_leaf("d")]], _leaf("e")]], ["r", {}, [_leaf("c"), ["e", {}, [_leaf("f")]]]], od, ["is_leaf"])
+        add("list-values", ["r", {}, [_leaf("a", x=[1, 2]), _leaf("b", x=[1]), _leaf("c"), _leaf("d", x=[])]],
+            ["r", {}, [_leaf("a", x=[1, 3]), _leaf("b", x=[1]), _leaf("c", x=[]), _leaf("d", x=0)]], od, ["x"])
     # BinaryNode: a third child in the union raises TreeError (reported; in the corpus once it is a recorded finding)
     if any(e.get("id") == "K5-C15" for e in _known()):
         add("K5-binary-overflow", ["r", {}, [_leaf("b"), _leaf("c")]], ["r", {}, [_leaf("d")]], True)
@@ -613,10 +670,12 @@ def rule(prop):
     return ("pairs (tree, edited copy): random trees (0-10 nodes incl. one-node trees; shapes wide/deep/mixed/path/star; name pools "
             "distinct / repeated (same name at the same depth under different parents) / prefix-suffix related (b, bc, xa, ab) / "
             "special characters (. ( + ) [ * ? \\ space) / marker look-alikes) edited by deleting, adding, renaming, moving subtrees "
-            "and changing attributes at any node incl. the root (ints incl. 0 and -1, strings incl. '', None, attribute missing on one side); "
+            "and changing attributes at any node incl. the root (ints incl. 0 and -1, strings incl. '', None, lists, attribute missing on one "
+            "side); attribute kinds: plain instance attributes, a read-only @property and a class-level default of a user subclass "
+            "(PropNode), the built-in derived attributes is_leaf / depth in attr_list; "
             "attr_list of 0-2 of 3 attributes (3 in the corpus, any order), only_diff on/off; arguments by keyword / positionally / "
             "omitted (defaults); tree.sep '/', other_tree.sep '/' or (45%) one of - . | \\ with names of both trees containing that "
-            "character; node classes Node / a Node subclass / BinaryNode (single children in either slot; union of children <= 2 per parent). "
+            "character; node classes Node / plain Node subclass / PropNode / BinaryNode (single children in either slot; union of children <= 2 per parent). "
             "Observation = multiset of (path_name, attribute pairs) of the returned tree, None, or the exception class, PLUS: both input "
             "trees unchanged (objects, names, attributes, child slots; other_tree.sep may become tree.sep), result of the inputs' class "
             "sharing no node object with them, a second call on the same objects returns the same. "
@@ -656,11 +715,11 @@ def partial_clauses(prop):
             "(Example C15_binary_overflow_refuted, reported); the generator keeps BinaryNode pairs below that bound",
             "accepted blind spots of the correspondence: (1) sibling order of the returned tree and pandas' row order (compared as a "
             "multiset, outside the property); (2) attribute values of the result are folded NaN/NA -> None and integral float -> int "
-            "(pandas turns an int column holding a missing value into floats), values are only ints, strings and None - bool and "
+            "(pandas turns an int column holding a missing value into floats), values are ints, strings, None, lists of ints (modelled by their repr) and the bools of is_leaf - other bool and "
             "non-integral float values and Python's cross-type equality (0 == 0.0 == False) are not exercised; (3) BinaryNode's own "
             "`val` attribute on result nodes is ignored; (4) exceptions are compared by class only; (5) start nodes that are not roots, "
             "multi-character separators, tree.sep != '/' beyond the K4-C15 witnesses, empty or non-string names, names containing '/', "
-            "attribute names that collide with Node properties (name, depth, sep ...), repeated entries or non-list containers in "
+            "attribute names that collide with other Node members (name, sep, children, parent ...; is_leaf and depth ARE generated), repeated entries or non-list containers in "
             "attr_list, trees with different root names are never generated (outside domain_C15: 0 cases skipped per run); "
             "(6) the value other_tree.sep has after the call is not constrained (old value or tree.sep both accepted)"]
 
